@@ -18,7 +18,7 @@ pub struct C02 {
 
 /// a source under test together with the stream it must produce
 pub fn creation_source(pfx: &str) -> (Obs, RStream, String) {
-  let kind = sym::choose(&format!("{}.kind", pfx), 10);
+  let kind = sym::choose(&format!("{}.kind", pfx), 12);
   let x = Sym::var(&format!("{}.x", pfx), 5);
   let e = Sym::var(&format!("{}.e", pfx), 77);
   match kind {
@@ -59,6 +59,8 @@ pub fn creation_source(pfx: &str) -> (Obs, RStream, String) {
         )
       }
     }
+    10 => (utils::Something::success(x.clone()).proceed(), RStream::done(vec![x]), "something(ok)".into()),
+    11 => (utils::Something::<Sym>::error(rx_err(&e)).proceed(), RStream { items: vec![], end: REnd::Error(e) }, "something(err)".into()),
     _ => {
       let n = sym::choose(&format!("{}.n", pfx), 4);
       (
@@ -113,6 +115,115 @@ impl Harness for C02 {
   }
 }
 
+/// window_with_count / group_by: every inner observable is subscribed on its own and must deliver
+/// its own items followed by its own terminal (the flattening adapter of the catalogue cannot see
+/// an inner observable that is never terminated)
+pub struct Nested {
+  pub group_by: bool,
+  pub max_len: usize,
+}
+
+impl Harness for Nested {
+  fn name(&self) -> String {
+    format!("C02/nested/{}/L{}", if self.group_by { "group_by" } else { "window_with_count" }, self.max_len)
+  }
+  fn run(&self) -> Verdict {
+    use std::sync::Mutex;
+    let script = sym_script("s", self.max_len, true);
+    let src = cold(script.clone(), None);
+    let stream = stream_of(&script);
+    let n = 1 + sym::choose("n", 3);
+    let c = Sym::var("c", 1);
+    let inners: Arc<Mutex<Vec<Recorder>>> = Arc::new(Mutex::new(vec![]));
+    let outer = Recorder::new();
+    let i2 = inners.clone();
+    let keep: Arc<Mutex<Vec<Subscription<'static>>>> = Arc::new(Mutex::new(vec![]));
+    let k2 = keep.clone();
+    let o: Observable<'static, Obs> = if self.group_by {
+      let c2 = c.clone();
+      src.group_by(move |x: Sym| c2.sym_lt(&x, "key"))
+    } else {
+      src.window_with_count(n)
+    };
+    let (oe, oc) = (outer.on_error(), outer.on_complete());
+    let _sub = o.subscribe(
+      move |w: Obs| {
+        let r = Recorder::new();
+        let s = r.subscribe(&w);
+        i2.lock().unwrap().push(r);
+        k2.lock().unwrap().push(s);
+      },
+      oe,
+      oc,
+    );
+    // reference: the partition of the items into inner streams, each ending like the source
+    // (a window that was closed by the count completes)
+    let mut exp: Vec<RStream> = vec![];
+    if self.group_by {
+      let mut keys: Vec<bool> = vec![];
+      for x in stream.items.iter() {
+        let k = c.sym_lt(x, "ref");
+        let ix = match keys.iter().position(|y| *y == k) {
+          Some(i) => i,
+          None => {
+            keys.push(k);
+            exp.push(RStream { items: vec![], end: stream.end.clone() });
+            keys.len() - 1
+          }
+        };
+        exp[ix].items.push(x.clone());
+      }
+    } else {
+      for (i, x) in stream.items.iter().enumerate() {
+        if i % n == 0 {
+          exp.push(RStream { items: vec![], end: stream.end.clone() });
+        }
+        let l = exp.len() - 1;
+        exp[l].items.push(x.clone());
+        if exp[l].items.len() == n {
+          exp[l].end = REnd::Complete;
+        }
+      }
+    }
+    let sig = format!("nested={}", if self.group_by { "group_by".to_string() } else { format!("window_with_count({})", n) });
+    let got = inners.lock().unwrap().clone();
+    let input = format!("create[{}]", script_short(&script));
+    if got.len() != exp.len() {
+      return Verdict {
+        prop: None,
+        structural: Some(format!("{} inner observables emitted, definition says {} [{}] in={}", got.len(), exp.len(), sig, input)),
+        sample: String::new(),
+        signature: format!("{};role=inner-count", sig),
+        nontrivial: true,
+        detail: vec![],
+      };
+    }
+    let mut props = vec![];
+    for (i, (r, e)) in got.iter().zip(exp.iter()).enumerate() {
+      let (p, st) = compare(&r.take(), e, &format!("{};inner={}", sig, i));
+      if let Some(m) = st {
+        return Verdict { prop: None, structural: Some(format!("{} in={}", m, input)), sample: String::new(), signature: format!("{};role=inner-sequence", sig), nontrivial: true, detail: vec![] };
+      }
+      props.push(p.unwrap());
+    }
+    // the outer stream ends like the source
+    let outer_exp = RStream { items: vec![], end: stream.end.clone() };
+    let (p, st) = compare(&outer.take(), &outer_exp, &format!("{};outer", sig));
+    if let Some(m) = st {
+      return Verdict { prop: None, structural: Some(format!("{} in={}", m, input)), sample: String::new(), signature: format!("{};role=outer-terminal", sig), nontrivial: true, detail: vec![] };
+    }
+    props.push(p.unwrap());
+    Verdict {
+      prop: Some(sym::t_and(props)),
+      structural: None,
+      sample: format!("{} in={} inners={}", sig, input, got.iter().map(|r| format!("[{}]", short_log(&r.take()))).collect::<Vec<_>>().join(" ")),
+      signature: format!("{};role=inner-values", sig),
+      nontrivial: !exp.is_empty(),
+      detail: vec![],
+    }
+  }
+}
+
 fn mk(ops: &[OpKind], max_len: usize, src_mode: usize) -> Arc<dyn Harness> {
   Arc::new(C02 { ops: ops.to_vec(), max_len, src_mode })
 }
@@ -121,12 +232,14 @@ pub fn plan(tier: Tier, seed: u64) -> Plan {
   let mut h: Vec<Arc<dyn Harness>> = vec![];
   let (l1, l2) = match tier {
     Tier::Quick => (4, 3),
-    Tier::Thorough => (6, 4),
+    Tier::Thorough => (8, 4),
   };
   for k in ALL_OPS {
     h.push(mk(&[*k], l1, 0));
     h.push(mk(&[*k], 0, 1));
   }
+  h.push(Arc::new(Nested { group_by: false, max_len: l1 }));
+  h.push(Arc::new(Nested { group_by: true, max_len: l1 }));
   // depth 2: quick = a seed-selected third, thorough = all pairs
   let mut idx = 0u64;
   for a in ALL_OPS {
@@ -139,11 +252,11 @@ pub fn plan(tier: Tier, seed: u64) -> Plan {
     }
   }
   if tier == Tier::Thorough {
-    let core = [OpKind::Take, OpKind::Skip, OpKind::Filter, OpKind::Map];
+    let core = [OpKind::Take, OpKind::Skip, OpKind::Filter, OpKind::Map, OpKind::Scan, OpKind::TakeWhile, OpKind::DistinctUntilChanged, OpKind::Reduce];
     for a in core {
       for b in core {
         for c in core {
-          h.push(mk(&[a, b, c], 4, 0));
+          h.push(mk(&[a, b, c], 3, 0));
         }
       }
     }
@@ -156,7 +269,7 @@ pub fn plan(tier: Tier, seed: u64) -> Plan {
       "script length <= {} at depth 1, <= {} at depth 2; counts 0..5; values in [-2^20,2^20]; predicate/function families x>c, x<c, x+c, a+b with symbolic c; depth 2: {}",
       l1,
       l2,
-      if tier == Tier::Quick { "seed-selected third of all operator pairs" } else { "all operator pairs + depth 3 over take/skip/filter/map" }
+      if tier == Tier::Quick { "seed-selected third of all operator pairs" } else { "all operator pairs + depth 3 (scripts <= 3) over take/skip/filter/map/scan/take_while/distinct_until_changed/reduce" }
     ),
   }
 }
@@ -165,6 +278,9 @@ pub fn by_name(name: &str) -> Option<Arc<dyn Harness>> {
   let parts: Vec<&str> = name.split('/').collect();
   if parts.len() != 4 {
     return None;
+  }
+  if parts[1] == "nested" {
+    return Some(Arc::new(Nested { group_by: parts[2] == "group_by", max_len: parts[3].trim_start_matches('L').parse().ok()? }));
   }
   let src_mode = if parts[1] == "script" { 0 } else { 1 };
   let ops: Option<Vec<OpKind>> = parts[2].split('+').map(OpKind::from_name).collect();
